@@ -30,7 +30,7 @@ ASSUMPTIONS = ['base64, gzip, urllib.parse, hashlib of CPython', 'routes are com
                'substitution is not invertible for them; observation recorded in DESIGN.md)']
 REQUIRED = ['evaluations', 'route_groups_checked', 'route:path', 'route:path-upper', 'route:stream-kind', 'route:stream-name',
             'route:svgz-path', 'route:svgz-kind', 'route:png-data-uri', 'route:svg-data-uri', 'route:svg-inline', 'route:cli-main', 'route:cli-main-upper',
-            'route:cli-subprocess', 'cli_terminal_checked', 'cli_terminal_other_stdout_encoding', 'cli_content_with_trailing_white_space', 'sequence_saves_checked', 'sequence_cli_checked', 'unknown_extension_refused',
+            'route:cli-subprocess', 'cli_terminal_checked', 'cli_terminal_other_stdout_encoding', 'cli_content_with_trailing_white_space', 'sequence_terminal_checked', 'route:cli-main-svgz', 'sequence_saves_checked', 'sequence_cli_checked', 'unknown_extension_refused',
             'audit_open_events']
 TIMEOUT = {'quick': 3600, 'thorough': 21600}
 KINDS = ['png', 'svg', 'eps', 'pdf', 'txt', 'ans', 'pbm', 'pam', 'ppm', 'xbm', 'xpm', 'tex']
@@ -378,6 +378,21 @@ def run_routes(case, rec, tmp, opened):
             rec.deviation('C12', 'cli-main-failed', {'argv': argv_u, 'rc': rc})
         else:
             res['cli-main-upper'] = read(p)
+        if kind == 'svg' and svgz_level is None:
+            # the command line tool asked for name.svgz: the gunzipped file is the SVG document
+            p = os.path.join(tmp, 'r12.%s' % ('svgz' if len(opened) % 2 else 'SVGZ'))
+            argv_z = ['--output=%s' % p] + argv[1:]
+            try:
+                rc = cli.main(argv_z)
+            except SystemExit as ex:
+                rc = ex.code
+            if rc != 0:
+                rec.deviation('C12', 'cli-main-failed', {'argv': argv_z, 'rc': rc})
+            else:
+                try:
+                    res['cli-main-svgz'] = gzip.decompress(read(p))
+                except OSError as ex:
+                    rec.deviation('C12', 'cli-svgz-not-gzip', {'argv': argv_z, 'error': str(ex)[:100]})
         if case.get('subprocess'):
             p2 = os.path.join(tmp, 'r11.%s' % kind)
             argv2 = ['--output=%s' % p2] + argv[1:]
@@ -474,6 +489,27 @@ def run_sequence(case, rec, tmp, opened):
         if blank_stamps(data) != blank_stamps(as_bytes(out.getvalue())):
             rec.deviation('C12', 'sequence-file-content', {'name': name, 'index': i})
     rec.seen('sequence|%s|%d' % (name, n))
+    # the terminal output of a sequence is the terminal output of its symbols, one after the other - through the object and
+    # through the command line tool without an output file
+    for compact in (False, True):
+        exp_t = io.StringIO()
+        for q in seq:
+            q.terminal(out=exp_t, compact=compact)
+        got_t = io.StringIO()
+        seq.terminal(out=got_t, compact=compact)
+        rec.count('sequence_terminal_checked')
+        if got_t.getvalue() != exp_t.getvalue():
+            rec.deviation('C12', 'sequence-terminal-differs', {'name': name, 'compact': compact, 'len': (len(got_t.getvalue()), len(exp_t.getvalue()))})
+        from segno import cli as _cli
+        cli_t = io.StringIO()
+        with contextlib.redirect_stdout(cli_t):
+            try:
+                rc = _cli.main(['--seq', '--symbol-count=%d' % case['count']] + (['--compact'] if compact else []) + [case['content']])
+            except SystemExit as ex:
+                rc = ex.code
+        if rc != 0 or cli_t.getvalue() != exp_t.getvalue():
+            rec.deviation('C12', 'cli-terminal-differs', {'sequence': True, 'compact': compact, 'rc': rc,
+                                                          'len': (len(cli_t.getvalue()), len(exp_t.getvalue()))})
     # the same sequence through the command line tool: --seq --symbol-count=k -o <name>
     if not any(ch in name for ch in '{}% '):
         from segno import cli
